@@ -11,17 +11,68 @@ HOOKS = {
 }
 
 ENGINES = {
-    "vh-lang": {"path": "harness/lang", "kind": "in-process generators + reference-model oracles for parser, values, scalars, SDL"},
+    "vh-lang": {"path": "harness/lang", "kind": "in-process generators + round-trip monitors for values"},
+    "vh-exec": {"path": "harness/exec", "kind": "real executor (static S1 + generated dynamic schemas) against reference executor R1 and resolver event-log monitors; fault enumeration; schedule control (vsched)"},
+    "vh-ws": {"path": "harness/ws", "kind": "real http::WebSocket driven by vsched scripts; protocol trace automaton"},
+    "vh-integ": {"path": "harness/integ", "kind": "in-memory GET/POST requests through the five web-framework integrations; resolver event log monitor"},
+    "vh-dynck": {"path": "harness/dynck", "kind": "dynamic-schema build oracle (own validator) and work-counter monitor (verif-hooks)"},
+    "vh-gate": {"path": "harness/gate", "kind": "introspection-mode matrix, secret-sentinel scanner over logged text, persisted-query store model"},
 }
 
+
+def _p(engine, technique, level_text, level_note, level="exploration", **kw):
+    d = {"engine": engine, "technique": technique, "level_text": level_text, "level_note": level_note, "level": level}
+    d.update(kw)
+    return d
+
+
+_R1 = ("Trusts the harness' reference executor R1 / coercion model (harness/model, written from the Oct-2021 spec), the "
+       "valid-by-construction argument of the document generator, and for the static flavour the hand model of S1. "
+       "Says nothing about schema shapes, documents or data the generators do not reach.")
+
 PROPS = {
-    "C15": {
-        "engine": "vh-lang",
-        "technique": "runtime round-trip monitor over generated values (print->parse, JSON->value)",
-        "level_text": "Exploration: tens of thousands (quick) to millions (thorough) of generated values are pushed through the real "
-                      "Display printer + parser and the JSON conversions; a strict-equality monitor compares what comes back.",
-        "level_note": "Trusts serde_json on the oracle side and the harness' strict equality; says nothing about values the generator does not reach (Binary is excluded as it is not a GraphQL value).",
-    },
+    "C01": _p("vh-exec", "runtime differential monitor: real executor vs reference executor R1 on generated documents/data (static schema S1)",
+              "Exploration: 12k (quick) / 600k (thorough) generated valid operations with variables over the derive-built schema S1 are executed by "
+              "the real crate with data-driven resolvers; the monitor compares response data (key order included) with R1 on the same data world.", _R1),
+    "C02": _p("vh-exec", "runtime differential monitor: real executor vs reference executor R1 on generated dynamic schemas/documents/data",
+              "Exploration: thousands of random dynamic type systems x generated valid operations executed by the real dynamic executor; "
+              "response data compared with R1 on the same data world.", _R1),
+    "C03": _p("vh-exec", "fault injection in harness resolvers + differential monitor on data and error accounting",
+              "Fault enumeration: for every generated (schema, document, world), EVERY completed position x applicable fault kind is injected alone "
+              "(pairs exhaustively for small trees, sampled otherwise) in static and dynamic schemas; data, error paths, locations and once-only "
+              "reporting are compared with R1.", _R1 + " Static Rust resolvers cannot yield nothing for a non-null type; that kind is injected in dynamic schemas only.",
+              level="fault_enumeration"),
+    "C11": _p("vh-dynck", "work-counter hook (verif-hooks) read around real request checking; bound K*S^2+K0",
+              "Exploration with an invariant counter: adversarial and random document families of growing size are checked by the real crate while the "
+              "verif-hooks work counter is read; counted work must stay below 64*S^2+10000 (clean families stay 84x below).",
+              "Counts selections visited by validation visitors, the two schema.rs walkers and FindConflicts; parser work is not counted. Bound constants are the harness' choice."),
+    "C15": _p("vh-lang", "runtime round-trip monitor over generated values (print->parse, JSON->value)",
+              "Exploration: tens of thousands (quick) to millions (thorough) of generated values are pushed through the real Display printer + parser "
+              "and the JSON conversions; a strict-equality monitor compares what comes back.",
+              "Trusts serde_json on the oracle side and the harness' strict equality; Binary is excluded as it is not a GraphQL value."),
+    "C19": _p("vh-gate", "resolver event log + response scanner over the full 3x3 mode matrix",
+              "Exploration, exhaustive over the 54-cell (schema mode x request mode x flavour x operation kind) matrix, random over documents: "
+              "metadata sentinels must be absent when disabled, the resolver log must be empty under introspection-only, __typename must resolve.",
+              "Sentinel names are unique to metadata; documents are generated, not enumerated."),
+    "C21": _p("vh-gate", "sentinel scanner over the text the real Logger / Tracing / stringify_execute_doc produce",
+              "Exploration: generated documents place unique sentinels in every secret position; the monitor scans the real logged text at three observation points.",
+              "A leak is a substring match of a sentinel placed in a secret position; non-secret sentinels are counted to show the monitor sees real text."),
+    "C25": _p("vh-ws", "trace automaton over client-in/server-out of the real WebSocket stream under vsched-controlled scripts",
+              "Exploration, bounded-exhaustive over client/environment scripts (length <= 5 quick, <= 7 thorough, per protocol and init mode) plus random "
+              "scripts up to length 40; every server message is judged by a protocol automaton written from the two PROTOCOL.md documents.",
+              "One gate opens per step (two environment events cannot fall into one poll); legacy protocol defines no close codes, so any refusal is accepted there."),
+    "C31": _p("vh-gate", "reference store model over request histories; resolver log shows which text ran",
+              "Exploration: random request histories against the real ApolloPersistedQueries extension with LRU and harness stores; executed tags, lookups and "
+              "store contents are compared with a reference model after every request.",
+              "sha2 on the oracle side; LRU eviction never triggers at these capacities (scc rounds capacity up), stated in evidence."),
+    "C33": _p("vh-dynck", "independent type-system validator as oracle for SchemaBuilder::finish(); panic monitor on built schemas",
+              "Exploration: random valid type systems and 142 single-rule violation/valid-variant operators; finish() must succeed iff the harness validator "
+              "(listed rules only) accepts; every built schema is introspected, exported and queried under a panic monitor.",
+              "Only the rules listed in the property are judged; systems violating other spec rules are never generated."),
+    "C35": _p("vh-integ", "resolver event log behind in-memory GET requests through each integration's own entry point",
+              "Exploration: ~165k (quick) generated GET requests through 11 entry points of axum, poem, actix-web, warp and rocket; any mutation-resolver event "
+              "after a GET, or a GET mutation answered without errors, is a violation; POST/GET-query controls prove the monitor sees events.",
+              "No sockets: requests are driven through tower/Endpoint/test-service/local-client APIs."),
 }
 
 _ALL = ["C%02d" % i for i in range(1, 36)]
